@@ -17,8 +17,9 @@ Model of the two passes that turn a scheduled operation into SNAX streamer confi
 
 The model mirrors the code as it is. The code performs three silent, possibly lossy steps; the model performs
 them too and records them in GHOST flags (`warned`, `inexact`, `bcast`) that the theorems use as clauses:
-`warned` is the `warnings.warn` of the `< 8` path (observable, compared with the real code), `inexact` is set
-when a `//` was not exact, `bcast` when the broadcast escape forced a stride to 0.
+`warned` is the `warnings.warn` of the `< 8` path (observable, compared with the real code), `bcast` is set when the
+broadcast escape forced a stride to 0. `inexact` (a `//` with a remainder) is kept for the statements of the theorems but
+can no longer be set: with fix FC02a the code raises instead (`toStridePattern_exact`).
 
 A loop is `(bound, stride)` (`Stride.Loop`), loop lists are INNERMOST FIRST (the order in which the code
 consumes `access_iter` and the order of `upper_bounds/temporal_strides`).
@@ -103,7 +104,9 @@ def first (it : List Loop) : Except Err (St × Bool) :=
       | x :: r => .ok (⟨some x, r, false, false⟩, true)
     else
       let tot := (s * (b : Int)).toNat
-      .ok (⟨some (tot / bank, 8), rest, decide (tot % bank ≠ 0), false⟩, false)
+      -- fix FC02a: `if (stride * bound) % TCDM_BANK_WIDTH != 0: raise RuntimeError` (was a silent `//`, finding DC02b)
+      if tot % bank ≠ 0 then .error .runtimeError
+      else .ok (⟨some (tot / bank, 8), rest, false, false⟩, false)
 
 /-- one iteration of `for spat_size in streamers[operand].spatial_dims`; returns the appended spatial stride -/
 def spatialStep (bc : Bool) (st : St) (spat : Nat) : Except Err (Int × St) :=
@@ -120,12 +123,14 @@ def spatialStep (bc : Bool) (st : St) (spat : Nat) : Except Err (Int × St) :=
         | [] => .error .stopIteration                   -- `next(access_iter)` without default
         | (nb, ns) :: r =>
           let ab := spat / b
-          if s * (b : Int) ≠ ns then
+          -- fix FC02a: `if next_bound % applied_bound != 0: raise RuntimeError` (was a silent `//`, finding DC02b)
+          if nb % ab ≠ 0 then .error .runtimeError
+          else if s * (b : Int) ≠ ns then
             if ns = 0 ∧ bc = true then
-              .ok (s, ⟨some (nb / ab, 0), r, st.inexact || decide (nb % ab ≠ 0), true⟩)
+              .ok (s, ⟨some (nb / ab, 0), r, st.inexact, true⟩)
             else .error .runtimeError
           else
-            .ok (s, ⟨some (nb / ab, s * (b : Int) * (ab : Int)), r, st.inexact || decide (nb % ab ≠ 0), st.bcast⟩)
+            .ok (s, ⟨some (nb / ab, s * (b : Int) * (ab : Int)), r, st.inexact, st.bcast⟩)
     else .error .notImplemented
 
 /-- the loop over the spatial dimensions of the streamer -/
@@ -156,6 +161,19 @@ def toStridePattern (it : List Loop) (dims : List Nat) (bc : Bool) : Except Err 
     | .ok (ss, st') =>
       let t := temporal st'
       .ok ⟨{ ub := t.map (·.1), ts := t.map (·.2), ss := ss }, w, st'.inexact, st'.bcast⟩
+
+/-- fix FC02a, first half (was the silent half of finding D29): the innermost relevant dimension is taken for a
+    contiguous run of elements, so unless the `< 8` warning path is taken its stride has to be the element width
+    (`el` = size in bytes of the operand's stream element type). -/
+def contiguousInner (el : Nat) (it : List Loop) : Bool :=
+  match it with
+  | [] => true
+  | (b, s) :: _ => decide (s * (b : Int) < 8) || decide (s = (el : Int))
+
+/-- the conversion of one operand as the code does it now: the contiguity check sits right after
+    "Fetch the first stride", in front of everything else -/
+def toStridePatternEl (el : Nat) (it : List Loop) (dims : List Nat) (bc : Bool) : Except Err Res :=
+  if contiguousInner el it then toStridePattern it dims bc else .error .runtimeError
 
 /-! ## Accelerator-specific `set_stride_patterns` (tables; correspondence and oracle only) -/
 
